@@ -78,6 +78,15 @@ def gen_cases(chk):
             for _k in range(8 if ty == 1 and r < 0.6 else 2):
                 cases.append("pw %x 0,0,0,0,%x %s %s 11 %x %d" % (ty, rng.choice((1000, 333)), dbits(r), rng.choice(("szMode=SZ_BEST_SPEED;accelerate_pw_rel_compression=0", "accelerate_pw_rel_compression=0")),
                                                               rng.getrandbits(16), rng.choice((3, 100))))
+    # accelerated path, library-chosen interval count: arrays too small for the interval optimiser to take a sample ((rows-1)*cols <= 99 and the
+    # like) and a prediction threshold of 1 both run its histogram loop to the end, i.e. to the largest interval count the 16-bit tables hold
+    for ty in (0, 1):
+        for t in ((5, 5), (8, 8), (10, 10), (3, 40), (2, 90), (4, 5, 5), (2, 3, 4, 5), (90,), (64, 64), (4096,), (8, 16, 16)):
+            dims = ",".join("%x" % v for v in [0] * (5 - len(t)) + list(t))
+            big = len(t) * max(t) >= 128 or t == (8, 16, 16)
+            for r in (1e-3, 2e-3):
+                cases.append("pw %x %s %s %s %d %x 3" % (ty, dims, dbits(r), rng.choice(("szMode=SZ_BEST_SPEED;predThreshold=1.0", "predThreshold=1.0")) if big else rng.choice(("szMode=SZ_BEST_SPEED", "-")),
+                                                       rng.choice((0, 1, 5)), rng.getrandbits(16)))
     n = 1500 if thorough else 260
     for _ in range(n):
         t = rng.choice(SHAPES)
